@@ -37,4 +37,11 @@ theorem enqueue_test_iff (a r pna u ka : Bool) :
     Gen.Cache.enqueue_test a r pna u ka = true ↔ a = true ∨ (r = true ∧ pna = true) ∨ (u = true ∧ ka = true) := by
   simp [Gen.Cache.enqueue_test, or_assoc]
 
+/-- `async_updates` and `async_updates_complete` iterate over `self.listeners.copy()` -/
+theorem updates_iterates_copy_eq : Gen.Cache.updates_iterates_copy = true := rfl
+theorem complete_iterates_copy_eq : Gen.Cache.complete_iterates_copy = true := rfl
+
+/-- D18 repair: `async_remove_listener` catches the `KeyError` of `set.remove` -/
+theorem remove_listener_catches_keyerror_eq : Gen.Cache.remove_listener_catches_keyerror = true := rfl
+
 end Zc
